@@ -1,6 +1,6 @@
 CONSTANTS Rates = ${Rates}  Bursts = ${Bursts}  Behaviours = ${Behaviours}
           Sizes = {"max-1", "max", "max+1", "5max"}  LenModes = {"cl", "chunked"}  Routes = {"proxy", "provider", "provider_get", "anthropic"}
-          Kinds = ${Kinds}
+          Kinds = ${Kinds}  Globals = ${Globals}
 INIT Init
 NEXT Next
 INVARIANT Export
